@@ -18,6 +18,19 @@ func NewVerifSQL(metric *format.MetricMetaValue, by []int, in, notIn data_model.
 	return &VerifSQL{b: b}
 }
 
+// SetSelect chooses what the SELECT part of a series query computes (kinds are data_model.DigestWhat values 1..DigestLast-1).
+func (v *VerifSQL) SetSelect(what []int, minMaxHost [2]bool, sort int, numResults int) {
+	v.b.what = tsWhat{}
+	for i, w := range what {
+		if i < len(v.b.what) {
+			v.b.what[i] = data_model.DigestSelector{What: data_model.DigestWhat(w)}
+		}
+	}
+	v.b.minMaxHost = minMaxHost
+	v.b.sort = querySort(sort)
+	v.b.numResults = numResults
+}
+
 func (v *VerifSQL) PreKeyTagX() int { return v.b.preKeyTagX() }
 func (v *VerifSQL) MetricID() int32 { return v.b.metricID() }
 
